@@ -396,7 +396,11 @@ def gen_malformed(rng):
 def _strip_wide(fmt):
     """no l / z / t / j modifier in front of c / s (wide characters: outside what the code supports, and libc's
     conversion of arbitrary bytes fails with EILSEQ, which the model does not describe)"""
-    return re.sub(rb"%[-+ #0'I0-9.*lztj]*[cs]", lambda m: re.sub(rb"[lztj]", b"", m.group(0)), fmt)
+    fmt = re.sub(rb"%[-+ #0'I0-9.*lztj]*[cs]", lambda m: re.sub(rb"[lztj]", b"", m.group(0)), fmt)
+    # "ll" in front of e f g a means `long double` to libc while the decoder passes a double: the text is
+    # whatever the x87 argument area holds (seen: "+nan" in one run, "-nan" in the next) -- not a
+    # function of the record, so neither the oracle nor the correspondence can say anything about it
+    return re.sub(rb"%[-+ #0'I0-9.*lztj]*[eEfFgGaA]", lambda m: re.sub(rb"l{2,}", b"l", m.group(0)), fmt)
 
 
 def _limit_digits(fmt):
